@@ -25,6 +25,9 @@ func genC14(r *Rng, tier string) *Plan {
 	if tier == "thorough" || r.Chance(1, 25) {
 		mix.RSA2048 = 1
 	}
+	if tier == "thorough" && r.Chance(1, 150) {
+		mix.RSA4096 = 2
+	}
 	g.AddForest(ForestOpts{MaxEnts: 4, MaxDepth: 3, Mix: mix, MaxExts: 1, Aliases: r.Bool(), Dirs: r.Chance(1, 3), KeyIDs: true, Validity: valRelative}, r.Chance(1, 4))
 	fam := map[string]string{}
 	for _, e := range g.Ents {
